@@ -4,6 +4,9 @@
 #include "common_types.h"
 #include "icu.h"
 
+#ifdef TEAKRA_VERIF
+struct TeakraVerifAccess; // verification hook: read/seed private state
+#endif
 namespace Teakra {
 
 class MemoryInterfaceUnit;
@@ -14,6 +17,9 @@ class Ahbm;
 class Btdmp;
 
 class MMIORegion {
+#ifdef TEAKRA_VERIF
+    friend struct ::TeakraVerifAccess;
+#endif
 public:
     MMIORegion(MemoryInterfaceUnit& miu, ICU& icu, Apbp& apbp_from_cpu, Apbp& apbp_from_dsp,
                std::array<Timer, 2>& timer, Dma& dma, Ahbm& ahbm, std::array<Btdmp, 2>& btdmp);
